@@ -36,6 +36,38 @@ def _eomonth_last(case):
     return case.get('call') == 'eomonth' and case.get('oracle') == 'last-month'
 
 
+def _norm_month(y, m):
+    return y + (m - 1) // 12, (m - 1) % 12 + 1
+
+
+@known_predicate('C17-year-zero-typeerror')
+def _year_zero(case):
+    """INERT (no entry in known_findings.json; outside the property's quantifier: months below
+    -22000).  DATE / EDATE / EOMONTH whose month arithmetic reaches February of a year <= 0 raise
+    TypeError from is_leap_year ("must be strictly positive"): DATE(1900, -22810, 1),
+    EOMONTH(100, -22815), EDATE(100, -22814).  Proved exact for days 1..28 (C17_date_small_day);
+    witness coq/Refuted/C17_date_exceptions.v."""
+    a = case.get('args', [])
+    if case.get('call') == 'date' and len(a) >= 3 and all(isinstance(x, int) for x in a[:3]) \
+            and 0 <= a[0] <= 9999:
+        y, m = _norm_month(a[0] + 1900 if a[0] < 1900 else a[0], a[1])
+        return m == 2 and y <= 0
+    if case.get('call') in ('edate', 'eomonth') and len(a) >= 2 and all(isinstance(x, int) for x in a[:2]):
+        return a[1] < -22000
+    return False
+
+
+@known_predicate('C17-day-recursion')
+def _day_recursion(case):
+    """INERT (no entry in known_findings.json; outside the property's quantifier: days beyond
+    +-25000).  normalize_year recurses once per month carried, so DATE(2000, 1, 40000) and
+    DATE(2000, 1, -40000) raise RecursionError (the model: OutOfFuel, budget 900 calls).  No
+    exception is proved for |day| <= 25000 (C17_date_total_partial)."""
+    a = case.get('args', [])
+    return case.get('call') in ('date', 'date-carry') and len(a) >= 3 and isinstance(a[2], int) \
+        and abs(a[2]) > 25000
+
+
 def run(ctx):
     ensure_impl_on_path()
     from pycel.lib import date_time as D
@@ -71,6 +103,17 @@ def run(ctx):
             for d in ([-40, -31, -1, 0, 1, 28, 29, 30, 31, 32, 60] if rng.random() < 0.5 else
                       [rng.randrange(-40, 61) for _ in range(4)]):
                 calls.append(('date', (y, m, d)))
+    # the region of C17_date_total_partial / C17_day_carry beyond the property's quantifier: far
+    # months (>= -11000), long day carries (|d| <= 20000: up to ~720 nested normalize_year calls)
+    for _ in range(ctx.n(60, 600)):
+        y = rng.choice([0, 1899, 1900, 1901, 2000, 2024, 9950, 9999, rng.randrange(0, 10000)])
+        calls.append(('date', (y, rng.randrange(-11000, 100000), rng.randrange(-40, 61))))
+        calls.append(('date', (y, rng.randrange(-40, 61), rng.randrange(-20000, 20001))))
+        calls.append(('date', (y, rng.randrange(-11000, 11000), rng.choice([1, 28, 29, 31, 400, -400]))))
+    for n in days[::97]:
+        for k in (-10000, rng.randrange(-10000, -1200), rng.randrange(1200, 100000)):
+            calls.append(('edate', (n, k)))
+            calls.append(('eomonth', (n, k)))
     for n in days[::11]:
         for k in [0, 1, -1, 12, -12, 1200, -1200] + [rng.randrange(-1200, 1201) for _ in range(3)]:
             calls.append(('edate', (n, k)))
@@ -154,6 +197,15 @@ def oracle(ctx, fn, days, years):
                 if base[0] == 'ok' and isinstance(base[1], int) and got != ('ok', base[1] + d - 1):
                     ctx.violation(dict(call='date-carry', args=[y, m, d]),
                                   "DATE(y,m,d) != DATE(y,m,1) + d - 1", impl=got, expected=base[1] + d - 1)
+            # long forward carries (C17_day_carry: any d >= 1 within the recursion budget)
+            for d in (400, 5000, 20000):
+                ctx.count(('carry', y, m, d), kind='oracle-carry')
+                got = run_impl(DATE, y, m, d)
+                if base[0] == 'ok' and isinstance(base[1], int) and base[1] > 60:
+                    want = base[1] + d - 1 if base[1] + d - 1 <= MAXDAY else '#NUM!'
+                    if got != ('ok', want):
+                        ctx.violation(dict(call='date-carry', args=[y, m, d]),
+                                      "DATE(y,m,d) != DATE(y,m,1) + d - 1", impl=got, expected=want)
             for k in (-2, 1, 3):
                 if not (1900 <= y + k <= 9999):
                     continue        # DATE reads years below 1900 as 1900 + year
